@@ -31,6 +31,9 @@ type c07Case struct {
 	B      int          `json:"b"`
 	// NumText: columns declared as numbers that arrive as decimal text (numeric group keys)
 	NumText []int `json:"num_text,omitempty"`
+	// Warm: both statements are first polled Warm times (-1: to their end),
+	// re-armed with Init() and only then executed for the comparison
+	Warm int `json:"warmup,omitempty"`
 }
 
 // numTextCol converts the text of a numeric group key back to a number.
@@ -77,8 +80,15 @@ func (c *c07Case) orderClause() string {
 
 func (c *c07Case) query() string { return c.Select + c.orderClause() }
 
+func (c *c07Case) warmText() string {
+	if c.Warm == 0 {
+		return ""
+	}
+	return fmt.Sprintf(" warmup=%d", c.Warm)
+}
+
 func (c *c07Case) text() string {
-	return fmt.Sprintf("%s | mode=%s B=%d store=%s", c.query(), c.Mode, c.B, store.CanonPairs(c.Store))
+	return fmt.Sprintf("%s | mode=%s B=%d%s store=%s", c.query(), c.Mode, c.B, c.warmText(), store.CanonPairs(c.Store))
 }
 
 type c07 struct{}
@@ -238,8 +248,11 @@ type c07Unit struct {
 
 func c07Units(t core.Tier) []c07Unit {
 	var us []c07Unit
-	for i := range c07Sels() {
+	for i, sl := range c07Sels() {
 		for p := 0; p < 8; p++ {
+			if t == core.Quick && sl.kind == "nan" {
+				break // quick tier: the not-a-number selects on the fixed stores only
+			}
 			us = append(us, c07Unit{sel: i, part: p, parts: 8})
 		}
 		for p := 0; p < 4; p++ {
@@ -326,6 +339,27 @@ func (c07) RunUnit(t core.Tier, u int, r *core.Reporter) {
 				}
 				r.Case(c.text(), nontrivial, status)
 				r.Observed(obs)
+				if un.fixed && len(sp) <= 2 {
+					// the same plans polled once / twice / to their end, re-armed
+					// with Init() and executed again: a permutation, sorted
+					for _, warm := range []int{1, 2, -1} {
+						w := c
+						w.Warm = warm
+						if !r.Begin(func() *core.Failure {
+							return &core.Failure{Property: "C07", Leg: "sorted-permutation", Case: w.text(), Data: core.MustJSON(w)}
+						}) {
+							continue
+						}
+						f, nontrivial, status, obs := c07Judge(&w)
+						r.Evals(2)
+						if f != nil {
+							status = "violation:" + f.Sig
+							r.Fail(*f)
+						}
+						r.Case(w.text(), nontrivial, status)
+						r.Observed(obs)
+					}
+				}
 			}
 		}
 	}
@@ -409,7 +443,7 @@ func c07Judge(c *c07Case) (f *core.Failure, nontrivial bool, status, observed st
 	}
 	s1 := store.New(c.Store)
 	s1.NoLog = true
-	base := drv.Run(c.Select, s1, drv.Opt{Mode: c.Mode, B: c.B})
+	base := drv.Run(c.Select, s1, drv.Opt{Mode: c.Mode, B: c.B, Warmup: c.Warm})
 	if base.BuildErr != nil && base.Panic == "" {
 		return nil, false, "rejected", "rejected"
 	}
@@ -421,7 +455,7 @@ func c07Judge(c *c07Case) (f *core.Failure, nontrivial bool, status, observed st
 	}
 	s2 := store.New(c.Store)
 	s2.NoLog = true
-	ord := drv.Run(c.query(), s2, drv.Opt{Mode: c.Mode, B: c.B, KeepRaw: true})
+	ord := drv.Run(c.query(), s2, drv.Opt{Mode: c.Mode, B: c.B, KeepRaw: true, Warmup: c.Warm})
 	if ord.BuildErr != nil && ord.Panic == "" {
 		return nil, false, "rejected", "rejected"
 	}
@@ -487,7 +521,7 @@ func c07Judge(c *c07Case) (f *core.Failure, nontrivial bool, status, observed st
 	// ORDER BY under LIMIT: the window [s, s+n) of the sorted sequence. Rows that
 	// tie on all order fields are interchangeable, so the window is compared on
 	// the order columns, and every returned row must be a row of the result.
-	if status == "ok" && len(ord.Rows) >= 3 && !c.hasNaN() {
+	if status == "ok" && len(ord.Rows) >= 3 && !c.hasNaN() && c.Warm == 0 {
 		keyOf := func(raw []any) string {
 			var b strings.Builder
 			for _, o := range c.Orders {
